@@ -131,6 +131,14 @@ func c16State(r *report.R, id string) {
 		// a validator is slashed for an infraction older than the unbonding / redelegation entries:
 		// their balances drop below their initial balances
 		vi := 1 + rng.Intn(2)
+		// preferably the destination of the pending redelegation (its entries then report a balance below the initial one)
+		if reds := n.App.StakingKeeper.GetRedelegations(n.Ctx(), n.Accounts[3].Addr, 5); len(reds) > 0 && rng.Intn(3) > 0 {
+			for i, v := range n.Vals {
+				if v.ValAddr.String() == reds[0].ValidatorDstAddress {
+					vi = i
+				}
+			}
+		}
 		if v, found := n.App.StakingKeeper.GetValidator(n.Ctx(), n.Vals[vi].ValAddr); found && !v.IsUnbonded() {
 			n.EndBlock()
 			n.Commit()
@@ -393,7 +401,7 @@ func c16Query(r *report.R, e *pcEnv, id string, rng *rand.Rand, owner vn.Account
 	viol := func(m, what string) {
 		r.Violation(id, "query|"+m+"|"+vcls+"|≠native", what, nil)
 	}
-	switch rng.Intn(6) {
+	switch rng.Intn(7) {
 	case 0: // delegation
 		out, ok := call(addrStaking, e.abiStaking, "delegation", owner.Eth, val)
 		res, err := q.Delegation(sdk.WrapSDKContext(ctx), &stakingtypes.QueryDelegationRequest{DelegatorAddr: owner.Addr.String(), ValidatorAddr: val})
@@ -536,6 +544,58 @@ func c16Query(r *report.R, e *pcEnv, id string, rng *rand.Rand, owner vn.Account
 		}
 		r.Count("query_pairs_equal", 1)
 		r.Nontriv(fmt.Sprintf("query|redelegation|found=%v", found))
+	case 5: // redelegations (plural): by delegator / source / destination, with the current balance of every entry
+		a3 := n.Accounts[3]
+		type page struct {
+			Key        []byte `json:"key"`
+			Offset     uint64 `json:"offset"`
+			Limit      uint64 `json:"limit"`
+			CountTotal bool   `json:"countTotal"`
+			Reverse    bool   `json:"reverse"`
+		}
+		del, src, dst := a3.Eth, "", ""
+		reds := n.App.StakingKeeper.GetRedelegations(ctx, a3.Addr, 5)
+		argCls := "by-delegator"
+		if len(reds) > 0 {
+			switch rng.Intn(3) {
+			case 0:
+				src, dst, argCls = reds[0].ValidatorSrcAddress, reds[0].ValidatorDstAddress, "by-delegator+src+dst"
+			case 1:
+				del, src, argCls = common.Address{}, reds[0].ValidatorSrcAddress, "by-source-validator"
+			}
+		}
+		out, ok := call(addrStaking, e.abiStaking, "redelegations", del, src, dst, page{Limit: 10, CountTotal: true})
+		delStr := ""
+		if del != (common.Address{}) {
+			delStr = sdk.AccAddress(del.Bytes()).String()
+		}
+		res, err := q.Redelegations(sdk.WrapSDKContext(ctx), &stakingtypes.QueryRedelegationsRequest{DelegatorAddr: delStr, SrcValidatorAddr: src, DstValidatorAddr: dst, Pagination: &query.PageRequest{Limit: 10, CountTotal: true}})
+		if !ok || err != nil {
+			if ok != (err == nil) {
+				viol("redelegations", fmt.Sprintf("precompile ok=%v native err=%v (%s)", ok, err, argCls))
+			}
+			return
+		}
+		s := pv(out[0])
+		entries, slashed := 0, false
+		for _, rr := range res.RedelegationResponses {
+			for _, en := range rr.Entries {
+				entries++
+				if !en.Balance.Equal(en.RedelegationEntry.InitialBalance) {
+					slashed = true
+				}
+				if !strings.Contains(s, "InitialBalance:"+en.RedelegationEntry.InitialBalance.String()) || !strings.Contains(s, "Balance:"+en.Balance.String()) {
+					viol("redelegations", fmt.Sprintf("native entry with initial balance %s and balance %s (destination %s) not reported as such: %s", en.RedelegationEntry.InitialBalance, en.Balance, rr.Redelegation.ValidatorDstAddress, s))
+					return
+				}
+			}
+		}
+		if strings.Count(s, "CreationHeight:") != entries {
+			viol("redelegations", fmt.Sprintf("precompile %d entries, native %d (%s)", strings.Count(s, "CreationHeight:"), entries, argCls))
+			return
+		}
+		r.Count("query_pairs_equal", 1)
+		r.Nontriv(fmt.Sprintf("query|redelegations|%s|entries%d|dst-slashed=%v", argCls, entries, slashed))
 	default: // bank precompile: balances / supplyOf for denoms that have an ERC20 address
 		who := n.Accounts[rng.Intn(3)]
 		out, ok := call(addrBank, e.abiBank, "balances", who.Eth)
